@@ -1059,6 +1059,24 @@ def desugar_combinators(raw):
                 used_closures.add(cid)
                 hosts.add(body["id"])
                 n_done += 1
+            elif path in ("std::option::Option::<T>::zip",) and len(args) == 2 and all(a["k"] in ("copy", "move") and not a["place"]["proj"] for a in args):
+                # a.zip(b)  ->  match (a, b) { (Some(x), Some(y)) => Some((x, y)), _ => None }
+                la, lb = args[0]["place"]["local"], args[1]["place"]["local"]
+                d1 = _new_local(body, "isize")
+                d2 = _new_local(body, "isize")
+                tup = _new_local(body, "(zip pair)")
+                pay = lambda l: _mv(l, [{"k": "downcast", "variant": "Some", "idx": 1, "adt": "std::option::Option"}, {"k": "field", "i": 0, "name": "0", "ty": "item"}])
+                some_bb = _new_block(body, [_assign(_pl(tup), {"k": "aggregate", "kind": {"k": "tuple"}, "ops": [pay(la), pay(lb)]}, span),
+                                            _assign(copy.deepcopy(dest), {"k": "aggregate", "kind": {"k": "adt", "adt": "std::option::Option", "variant": "Some", "idx": 1, "fields": ["0"]}, "ops": [_mv(tup)]}, span)],
+                                     {"k": "goto", "target": cont, "span": span})
+                none_bb = _new_block(body, [_assign(copy.deepcopy(dest), {"k": "aggregate", "kind": {"k": "adt", "adt": "std::option::Option", "variant": "None", "idx": 0, "fields": []}, "ops": []}, span)],
+                                     {"k": "goto", "target": cont, "span": span})
+                t2 = _new_block(body, [_assign(_pl(d2), {"k": "discriminant", "place": _pl(lb), "adt": "std::option::Option"}, span)],
+                                {"k": "switch", "discr": _mv(d2), "discr_ty": "isize", "targets": [["0", none_bb], ["1", some_bb]], "otherwise": _unreachable(body, span), "span": span})
+                blk["stmts"].append(_assign(_pl(d1), {"k": "discriminant", "place": _pl(la), "adt": "std::option::Option"}, span))
+                blk["term"] = {"k": "switch", "discr": _mv(d1), "discr_ty": "isize", "targets": [["0", none_bb], ["1", t2]], "otherwise": _unreachable(body, span), "span": span}
+                hosts.add(body["id"])
+                n_done += 1
             elif path in ("std::iter::Extend::extend",) and len(args) == 2:
                 sk = _loop_skeleton(body, args[1], span)
                 pd = _new_local(body, "()")
